@@ -314,11 +314,14 @@ def _parse_nh_struct(text):
     span_matches = re_spans.findall(text)
     deltas = dict(re_deltas.findall(text))
 
-    count_value = int(items['count'])
-    sum_value = int(items['sum'])
-    schema = int(items['schema'])
-    zero_threshold = float(items['zero_threshold'])
-    zero_count = int(items['zero_count'])
+    try:
+        count_value = int(items['count'])
+        sum_value = int(items['sum'])
+        schema = int(items['schema'])
+        zero_threshold = float(items['zero_threshold'])
+        zero_count = int(items['zero_count'])
+    except KeyError as e:
+        raise ValueError(f"Native histogram is missing field {e}: {text}")
 
     pos_spans = _compose_spans(span_matches, 'positive_spans')
     neg_spans = _compose_spans(span_matches, 'negative_spans')
